@@ -79,6 +79,11 @@ type Node struct {
 	Prepend string // Process.Prepend (a launcher such as "nice -n 10")
 	PadTo   int
 	GlueIn  bool // in-path placeholders glued to an option: -i={i:x}
+	// TagGroups > 0 (MapToTags): the tag value is one of that many group names
+	// (a function of the path) instead of a value unique to the file;
+	// GroupBy (Concatenator): GroupByTag
+	TagGroups int
+	GroupBy   string
 	JoinMod string // a second occurrence of the first joined in-port, with this modifier, passed as -note
 	Rec     bool // a pass-through recorder is attached to every out-port edge
 	// components
